@@ -12,6 +12,7 @@ CONSTANTS Comp = "hub_pro"
   NBuf = 2
   Gaps <- G_31
   Strict = TRUE
+  Busy = FALSE
   D = 4
 INIT Init
 NEXT Next
